@@ -166,7 +166,11 @@ func (m *Manager) findBestEndpointLocked(ctx context.Context) (*activeEnpoint, e
 	// Fallback to first endpoint with short
 	m.debugf("Falling back to first endpoint %s", firstEndpoint)
 	ae := m.newActiveEndpointLocked(firstEndpoint)
+	// ae may be the active endpoint in use by queries: testInterval is
+	// guarded by its mutex.
+	ae.mu.Lock()
 	ae.testInterval = minTestIntervalFailed
+	ae.mu.Unlock()
 	return ae, nil
 }
 
